@@ -22,3 +22,17 @@ Definition fcubic_r4 (p : Z) (m : mode) (s e : Z) : Z * Z := approx_val (ctx_cub
 Definition finv_r4 (p : Z) (m : mode) (s e : Z) : result (Z * Z) := map_val (ctx_inv_fix B p m s e).
 
 End R4Spec.
+
+(** the operators taking a prepared divisor, `x / &cd`, `x % &cd`, `x.div_rem(&cd)` and the assignment forms
+    (integer/src/div_const.rs): UBig forms call the ConstDivisor kernels of C02 (Int/DivWordModel.v const_div_rem /
+    const_rem: the Single / Double / Large divisor tables), IBig forms split the sign off, run the kernel on the
+    magnitude and put the sign of the dividend on quotient and remainder (`with_sign(sign)`); every ownership
+    form and the assignment form (by mem::take) run that one body.  `/` is modelled as the quotient half of
+    div_rem (its own arm table calls the division-only variants of the same kernels). *)
+From Dashu Require Import Int.DivWordModel Int.DivWordInst.
+
+Definition cd_with_sign (a v : Z) : Z := Z.sgn a * v.       (* Repr::with_sign(sign of the dividend); zero stays zero *)
+Definition cd_divrem_asis (w a d : Z) : result (Z * Z) :=
+  rbind (i_const_div_rem w (Z.abs a) d) (fun qr => Ok (cd_with_sign a (fst qr), cd_with_sign a (snd qr))).
+Definition cd_div_asis (w a d : Z) : result Z := rbind (cd_divrem_asis w a d) (fun qr => Ok (fst qr)).
+Definition cd_rem_asis (w a d : Z) : result Z := rbind (i_const_rem w (Z.abs a) d) (fun r => Ok (cd_with_sign a r)).
